@@ -38,7 +38,7 @@ def main():
         changed = [l[6:].strip() for l in open(os.path.join(d, "patch.diff")) if l.startswith("+++ b/")]
         props = sorted(p for p, ws in vlib.WATCH.items()
                        if any(c == w or c.startswith(w.rstrip("/") + "/") for c in changed for w in ws))
-    tag = os.path.basename(os.path.dirname(d)) + "-" + os.path.basename(d) if not meta else os.path.basename(d)
+    tag = "-".join(d.strip("/").split("/")[-3:]) if not meta else os.path.basename(d)
     base = "/tmp/seedrun/" + tag
     shutil.rmtree(base, ignore_errors=True)
     os.makedirs(base)
